@@ -370,10 +370,10 @@ type dcase struct {
 	ctxSeen  map[*rux.Context]bool
 	ctxLost  map[*rux.Context]bool
 	lostSeen bool
-	lastCtx  *rux.Context // a context this router handed out before (source of the contexts given to HandleContext)
+	lastCtx  *rux.Context       // a context this router handed out before (source of the contexts given to HandleContext)
 	dxRR     map[int]*rux.Route // the registered routes by id (targets of the `sh` action)
 	dn       dnState            // nested requests (action `nr`), see engine_dispatch_dn.go
-	kept     []*dKept     // copies kept by `kc`
+	kept     []*dKept           // copies kept by `kc`
 }
 
 // dKept is a Context.Copy() that a handler kept beyond its request.
